@@ -456,10 +456,17 @@ package store
 
 //@ pure gone(s, h) = !dsHas[kHeight(h)] && !has(s.pending.headers, h) && !icHas[h]
 
+// the write batch deleteSequential opens (context-aware datastores keep the deletes in it) is closed - committed - on
+// every path, also when the deletion stopped half-way: the pointers are moved to the progress made either way
+//@ ghost var batchCloses int -- calls of the write batch's done function
+//@ field store.(*Store).deleteSequential$1.done()
+//@   effect batchCloses := old(batchCloses) + 1
+
 //@ func (*Store).deleteSequential(s, ctx, from, to)
 //@   props C08, C14
+//@   ensures [C08,C14] write-batch-always-closed: batchCloses == old(batchCloses) + 1
 //@   requires storeINV(s) && !isBatch(s.ds) && from <= to && to - from < 4611686018427387904
-//@   modifies $now, ghost:hcHas, ghost:hcVal, ghost:icHas, ghost:icVal, ghost:hCalls, ghost:hFailed, ghost:dsHas, ghost:dsWrites, ghost:dsDeletes, MH_Int_Hdr_has, MH_Str_Int_has
+//@   modifies $now, ghost:hcHas, ghost:hcVal, ghost:icHas, ghost:icVal, ghost:hCalls, ghost:hFailed, ghost:dsHas, ghost:dsWrites, ghost:dsDeletes, MH_Int_Hdr_has, MH_Str_Int_has, ghost:batchCloses
 //@   ensures [C08] inv: storeINV(s)
 //@   ensures [C08] progress-bounds: from <= result0 && result0 <= to
 //@   ensures [C08] complete-on-success: result2 == nil ==> result0 == to
@@ -534,7 +541,7 @@ package store
 //@ func (*Store).deleteRangeRaw(s, ctx, from, to)
 //@   props C08, C14
 //@   requires storeINV(s) && !isBatch(s.ds) && from <= to && deleteRangeParallelThreshold > 0 && deleteRangeParallelThreshold <= 4611686018427387904
-//@   modifies $now, ghost:hcHas, ghost:hcVal, ghost:icHas, ghost:icVal, ghost:hCalls, ghost:hFailed, ghost:dsHas, ghost:dsWrites, ghost:dsDeletes, MH_Int_Hdr_has, MH_Str_Int_has, EH_Int, F_store_result_err, F_store_result_height, F_store_result_missing, EH_Err, F_keytransform_Datastore_KeyTransform, F_keytransform_Datastore_child, F_sync_Once__, F_sync_Once_done, F_sync_Once_m, ghost:dsVal
+//@   modifies $now, ghost:hcHas, ghost:hcVal, ghost:icHas, ghost:icVal, ghost:hCalls, ghost:hFailed, ghost:dsHas, ghost:dsWrites, ghost:dsDeletes, MH_Int_Hdr_has, MH_Str_Int_has, EH_Int, F_store_result_err, F_store_result_height, F_store_result_missing, EH_Err, F_keytransform_Datastore_KeyTransform, F_keytransform_Datastore_child, F_sync_Once__, F_sync_Once_done, F_sync_Once_m, ghost:dsVal, ghost:batchCloses
 //@   ensures [C08] inv: storeINV(s)
 //@   ensures [C08] progress-bounds: from <= result0 && result0 <= to
 //@   ensures [C08] complete-on-success: result2 == nil ==> result0 == to
@@ -565,7 +572,7 @@ package store
 //@   ghost wiped error := result0 of call wipe #0
 //@   ghost rawErr error := result2 of call deleteRangeRaw #0
 //@   ensures [C14,C08] failure-is-returned: called(rawErr) && rawErr != nil ==> result != nil -- wherever in the range the deletion stopped, the first height included
-//@   modifies $now, ghost:hcHas, ghost:hcVal, ghost:icHas, ghost:icVal, ghost:btHas, ghost:btPuts, ghost:btVal, ghost:dsHas, ghost:dsVal, ghost:dsWrites, ghost:dsDeletes, ghost:hCalls, ghost:hFailed, AP_set, AP_val_Hdr, AT_u64, MH_Int_Hdr_has, MH_Int_Hdr_val, MH_Str_Int_has, MH_Str_Int_val, sub.count, MH_Int_Int_has, MH_Int_Int_val, ghost:arrived, EH_Int, F_store_result_err, F_store_result_height, F_store_result_missing, EH_Err, F_keytransform_Datastore_KeyTransform, F_keytransform_Datastore_child, F_sync_Once__, F_sync_Once_done, F_sync_Once_m
+//@   modifies $now, ghost:hcHas, ghost:hcVal, ghost:icHas, ghost:icVal, ghost:btHas, ghost:btPuts, ghost:btVal, ghost:dsHas, ghost:dsVal, ghost:dsWrites, ghost:dsDeletes, ghost:hCalls, ghost:hFailed, AP_set, AP_val_Hdr, AT_u64, MH_Int_Hdr_has, MH_Int_Hdr_val, MH_Str_Int_has, MH_Str_Int_val, sub.count, MH_Int_Int_has, MH_Int_Int_val, ghost:arrived, EH_Int, F_store_result_err, F_store_result_height, F_store_result_missing, EH_Err, F_keytransform_Datastore_KeyTransform, F_keytransform_Datastore_child, F_sync_Once__, F_sync_Once_done, F_sync_Once_m, ghost:batchCloses
 //@   ensures [C08] inv: storeINV(s)
 //@   ensures [C08] only-ends: result == nil ==> called(hd) && called(tl) && from < to && ((from == tl.Height() && to <= hd.Height() + 1) || (to == hd.Height() + 1 && from >= tl.Height()))
 //@   ensures [C08] rejected-no-effect: called(hd) && called(tl) && hderr == nil && tlerr == nil && !acceptedRange(from, to, hd, tl) ==> result != nil && dsDeletes == old(dsDeletes) && hCalls == old(hCalls) && apVal(s.contiguousHead) == hd && apVal(s.tailHeader) == tl && apSet(s.contiguousHead) && apSet(s.tailHeader)
